@@ -429,7 +429,9 @@ def e2e_files(spec):
     from gen.scenario import Rank, TID_PREP, TID_EXEC
     files = {}
     for r, fam in enumerate(spec["ranks"]):
-        rk = Rank(r, float(spec.get("freq", 512)), 1_000_000_000.0, 512 * (1000 + 77 * r))
+        # t0: the host clock's origin; real traces carry epoch microseconds (about 2.1e12), where a float's spacing is 2^-12 us
+        t0 = float(spec.get("t0", 1_000_000_000.0))
+        rk = Rank(r, float(spec.get("freq", 512)), t0, 512 * (1000 + 77 * r))
         hosted = []
         for k, (s, e) in enumerate(fam):
             s, e = float(Fraction(s)), float(Fraction(e))
@@ -437,7 +439,7 @@ def e2e_files(spec):
             if mode == "all" or (mode == "mixed" and k % 2 == 0):
                 # a Prep slice WITHOUT device time stamps (host-only trace): an X event with plain args
                 hosted.append({"ph": "X", "name": f"h{k}_{r} Cmpt Prep", "pid": r, "tid": 9000 + k,
-                               "ts": 1_000_000_000.0 + s, "dur": e - s, "args": {"uid": f"r{r}h{k}"}})
+                               "ts": t0 + s, "dur": e - s, "args": {"uid": f"r{r}h{k}"}})
                 continue
             # TS1..TS5: [issue, prep start, prep end = exec start, exec end, done]
             ts5 = [s, s, e, e + 3, e + 4]
@@ -522,6 +524,8 @@ def gen_e2e(ctx: Ctx):
             spec["host_prep"] = "all"
         elif u < 0.6:
             spec["host_prep"] = "mixed"
+        if rng.random() < 0.35:
+            spec["t0"] = 2_100_000_000_000.0
         yield {"kind": "e2e", "spec": spec}
 
 
